@@ -1,10 +1,10 @@
 SPECIFICATION GenSpec
 CONSTANTS
   Macs = {"m1", "m2", "m3"}
-  Pool = {11, 12, 21, 22}
+  Pool = {11, 12, 21, 31}
   Outs = {13}
   GWs = {10}
-  Fars = {1, 20}
+  Fars = {20}
   Hosts = {"h1", "h2", "h3"}
 INVARIANTS
   KeyedByAddress OneLeasePerClientAndNet HostsUnique DynamicInsideRange
